@@ -699,7 +699,7 @@ func init() {
 	register(&PropDef{
 		ID: "C15",
 		Rule: "each case is a program over a stack of cache wrappers (depth<=4) on a MemDB adapter, an IAVL store, a prefix store or a cache multistore " +
-			"(2-3 substores): get/has/set/del/drained iterators with generated bounds/iterators kept open across writes/write/wrap/discard on keys over {00,01,61,ff}^1..3; " +
+			"(2-3 substores): get/has/set/del/drained iterators with generated bounds/iterators kept open across writes/write/wrap/discard on keys over {00,01,61,ff}^1..3 (slices with 0-8 bytes of spare poisoned capacity); " +
 			"every result is compared with a stack-of-sorted-maps model, lower levels are re-read after every write/discard; 1 in 6 cases runs 2-4 goroutines on one wrapper " +
 			"and checks per-key linearizability with porcupine; non-trivial = a drained iterator whose range holds both a parent key shadowed by a delete and a cache-only key, " +
 			"or nesting >=2 with a Write at an inner level, or a concurrent case with >=6 operations; distinctness = hash of the program",
